@@ -38,6 +38,10 @@ CHECKS.update({
             'plug-to-phase assignments x constructor/tearDown fault vectors x phase behaviours enumerated by TLC; instrumented plug classes log '
             'ctor/tearDown/instance ids; lifecycle rules evaluated on the real event log and compared with the model', _EXEC_NOTE,
             'DESIGN.md 5/C08'),
+    'C09': ('TLA+ spec Lifecycle.tla (NoLeak, CallbacksInOrder, AllCallbacksAtEnd, OverlapDisturbsNothing, ReturnIffPass) checked by TLC; TLC-emitted execute() histories replayed on one real Test object',
+            'every history of <=3 execute() calls (8 exit paths x raising-callback subsets x overlapping call x dut id) enumerated by TLC is replayed '
+            'on a single real Test object; callbacks snapshot the record they receive (finality, times, dut id, metadata, phases); Test.state, '
+            'TEST_INSTANCES and the openhtf logger handlers are inspected after every call', _EXEC_NOTE, 'DESIGN.md 5/C09'),
 })
 
 NOT_APPLICABLE = {
